@@ -189,8 +189,9 @@ class Parser:
            '|': 4, '^': 5, '&': 6, '<<': 7, '>>': 7, '+': 8, '-': 8, '*': 9, '/': 9, '%': 9}
     ASSIGN = ('=', '+=', '-=', '*=', '|=', '&=', '^=', '<<=', '>>=', '/=', '%=')
 
-    def __init__(self, toks, what):
+    def __init__(self, toks, what, ext=False):
         self.t, self.i, self.what = toks, 0, what
+        self.ext = ext              # phase-2 syntax (macro-expanded text): local `use .. as ..`, closures, `::path`
 
     def err(self, msg):
         ctx = ' '.join(x[1] for x in self.t[max(0, self.i - 8):self.i + 8])
@@ -403,6 +404,8 @@ class Parser:
                 if x[0] == 'eof':
                     self.err('unterminated use')
                 toks.append(x)
+            if self.ext:
+                return ('use', toks)            # resolved (or rejected) by the executor
             # a local import must not be able to change what a leaf name means
             if ('id', 'as') in toks or ('sym', '*') in toks or ('sym', '{') in toks:
                 self.err('unsupported `use` form inside a function body (alias / glob / group)')
@@ -595,6 +598,22 @@ class Parser:
             e = ('cast', e, ty)
         return e
 
+    def closure(self):
+        """`|p, q| body` (ext only): ('closure', [pattern], body)"""
+        pats = []
+        if not self.accept('||'):
+            self.expect('|')
+            while not self.at('|'):
+                pats.append(self.pattern())
+                if self.accept(':'):
+                    self.skip_type((',', '|'))
+                if not self.accept(','):
+                    break
+            self.expect('|')
+        if self.at('->'):
+            self.err('unsupported closure return type')
+        return ('closure', pats, self.expr(0))
+
     def args(self):
         self.expect('(')
         a = []
@@ -674,8 +693,20 @@ class Parser:
                     es.append(self.expr(0))
             self.expect(']')
             return ('array', es)
+        if self.ext and (self.at('|') or self.at('||')):
+            return self.closure()
         if self.at('|') or self.at('||') or self.at('move'):
             self.err('unsupported closure')
+        if self.ext and self.at('::') and self.peek(1)[0] == 'id':
+            self.next()                         # `::core::..`: absolute path
+            segs = ['::', self.ident()]
+            while self.at('::'):
+                self.next()
+                if self.at('<'):
+                    self.skip_angle()
+                    continue
+                segs.append(self.ident())
+            return ('path', segs)
         if self.at('{') or (x[0] == 'id' and x[1] in self.BLOCKLIKE):
             return self.blocklike_expr()
         if self.at('<'):
@@ -1482,6 +1513,8 @@ class Exec:
                     raise ReturnEx(self.value(s[1]) if s[1] is not None else Unit())
                 elif k == 'break':
                     raise BreakEx()
+                elif k == 'use':
+                    self.exec_use(s[1])
                 elif k == 'expr':
                     v = self.eval(s[1])
                     if not s[2] and i == len(stmts) - 1:
@@ -1493,6 +1526,9 @@ class Exec:
             return val
         finally:
             fr.scopes.pop()
+
+    def exec_use(self, toks):
+        self.err('local `use` is not supported here')
 
     def exec_let(self, s):
         _, pat, e = s
@@ -1995,7 +2031,14 @@ def mk_param(kind, prefix, N):
         return Struct('Fp', {'0': Struct('BigInt', {'0': Arr([S(x, 'u64') for x in ns])})}), ns
     if kind == 'u64':
         return S(prefix, 'u64'), [prefix]
-    raise TranslateError('internal: parameter kind %s' % kind)
+    if isinstance(kind, tuple) and kind[0] == 'FpArr':          # [Fp; M]: element i, limb j is `<prefix><i>l<j>`
+        items, names = [], []
+        for i in range(kind[1]):
+            v, ns = mk_param('Fp', '%s%dl' % (prefix, i), N)
+            items.append(v)
+            names += ns
+        return Arr(items), names
+    raise TranslateError('internal: parameter kind %s' % (kind,))
 
 
 # configuration constants -> (Gallina binder(s), value)
@@ -2085,10 +2128,16 @@ class Translator:
         self.repo = repo
         self.src, self.ast = {}, {}
 
+    def def_name(self, tgt, N):
+        return 'gen_%s_%d' % (tgt['name'], N)
+
+    def new_exec(self, tgt, N, cfg, what):
+        return Exec(self.repo, N, cfg, what, self.src, self.ast)
+
     def run(self, tgt, N, path):
         cfg, cbind = mk_config(tgt['cfg'], N)
-        what = 'gen_%s_%d' % (tgt['name'], N)
-        ex = Exec(self.repo, N, cfg, what, self.src, self.ast)
+        what = self.def_name(tgt, N)
+        ex = self.new_exec(tgt, N, cfg, what)
         ex.path = list(path)
         for k in tgt.get('opaque', ()):
             if k != tgt['key']:
@@ -2149,7 +2198,7 @@ class Translator:
     def build(self, tgt, N, prefix, budget):
         budget[0] += 1
         if budget[0] > self.MAX_PATHS:
-            raise TranslateError('gen_%s_%d: more than %d execution paths' % (tgt['name'], N, self.MAX_PATHS))
+            raise TranslateError('%s: more than %d execution paths' % (self.def_name(tgt, N), self.MAX_PATHS))
         events, res, binders = self.run(tgt, N, prefix)
         lets, seen = [], 0
         for ev in events:
@@ -2191,9 +2240,11 @@ class Translator:
         tree, binders = self.build(tgt, N, [], [0])
         lines = self.emit(tree, '  ')
         lines[-1] += '.'
-        rel = FN[tgt['key']][0]
-        head = 'Definition gen_%s_%d %s : %s :=' % (tgt['name'], N, ' '.join(binders), tgt['rty'])
-        return '(* %s :: %s, N = %d *)\n%s\n%s\n' % (rel, tgt['key'][1], N, head, '\n'.join(lines))
+        head = 'Definition %s %s : %s :=' % (self.def_name(tgt, N), ' '.join(binders), tgt['rty'])
+        return '(* %s :: %s, N = %d *)\n%s\n%s\n' % (self.origin(tgt), tgt['key'][1], N, head, '\n'.join(lines))
+
+    def origin(self, tgt):
+        return FN[tgt['key']][0]
 
 
 HEADER = '''(* GENERATED by lib/xlate_limb.py -- do not edit.
@@ -2235,7 +2286,430 @@ def write_if_changed(path, text):
     return True
 
 
+
+# ====================================================================== phase 2: #[derive(MontConfig)]
+#
+# The code that the proc macro ff-macros/src/montgomery/*.rs GENERATES is obtained as text by
+# lib/expand_derive.py (`cargo rustc -- -Zunpretty=expanded` on lib/expand_crate) and executed by the same
+# symbolic executor.  Per field X of N limbs the expansion is
+#     const _: () = { use ark_ff::{..}; type B = BigInt<N>; type F = Fp<MontBackend<X, N>, N>;
+#                     impl MontConfig<N> for X { const MODULUS: B = BigInt([<literals>]); fn add_assign ..}
+#                     fn __subtract_modulus ..  fn __add_with_carry ..  fn __sub_with_borrow .. };
+# Differences to phase 1: function bodies come from that block (methods of the impl, free `__*` helpers),
+# `use ark_ff::biginteger::arithmetic::<leaf> as <name>;` inside a body is RESOLVED to the leaf, a bare leaf
+# name without such an import is rejected, the aliases `B`/`F`/`fa` are checked against the block's header,
+# the modulus limbs are literals (so one definition per field, named gen_<field>_<fn>), `Self::INV` (the only
+# configuration constant the generated code still reads) is the parameter `inv`.  Everything that the
+# generated code calls in ark-ff itself (`mul2`, `is_geq_modulus`, `BigInt::cmp`, `F::ZERO`, `new_unchecked`)
+# is executed from the /repo sources as before.
+
+DERIVE_USE_EXPECT = ('use ark_ff :: { fields :: Fp , BigInt , BigInteger , biginteger :: arithmetic as fa , '
+                     'fields :: *} ;')
+DERIVE_MOD = '__derived_block'
+
+
+class Closure:
+    def __init__(self, pats, body):
+        self.pats, self.body = pats, body
+
+
+class DExec(Exec):
+    """executor for the macro-expanded text of one derived field (self.d: see derive_fields)"""
+
+    def __init__(self, repo, N, cfg, what, srccache, astcache, d):
+        Exec.__init__(self, repo, N, cfg, what, srccache, astcache)
+        self.d = d
+
+    # ---- where function bodies come from
+    def fn_ast(self, key):
+        if key[0] in ('Mont', 'free'):
+            dk = ('derive', self.d['name']) + tuple(key)
+            if dk not in self.ast:
+                item = self.d['impl_re'] if key[0] == 'Mont' else r'\bmod %s\s*\{' % DERIVE_MOD
+                text = find_fn(self.d['block'], item, key[1])
+                self.ast[dk] = Parser(tokenize(text), '%s::%s' % (self.d['name'], key[1]), ext=True).fn()
+            return self.ast[dk]
+        return Exec.fn_ast(self, key)
+
+    def kind_of_seg(self, seg):
+        if seg == 'F':
+            return 'Fp'
+        if seg == 'B':
+            return 'BigInt'
+        return Exec.kind_of_seg(self, seg)
+
+    # ---- configuration: the modulus is the literal of `const MODULUS`, INV the parameter `inv`
+    def config(self, name):
+        if name == 'MODULUS':
+            return copyval(self.modulus())
+        return Exec.config(self, name)
+
+    def modulus(self):
+        dk = ('derive', self.d['name'], 'MODULUS')
+        if dk not in self.ast:
+            toks = tokenize(find_const(self.d['block'], self.d['impl_re'], 'MODULUS'))
+            p = Parser(toks, '%s::MODULUS' % self.d['name'], ext=True)
+            e = p.expr(0)
+            if p.i != len(toks):
+                self.err('MODULUS: trailing tokens')
+            self.frames.append(Frame('Mont', '%s::MODULUS' % self.d['name']))
+            try:
+                v = self.value(e)
+            finally:
+                self.frames.pop()
+            if not (isinstance(v, Struct) and v.kind == 'BigInt' and len(v.f['0'].items) == self.N and
+                    all(isinstance(x, int) and not isinstance(x, bool) and 0 <= x < 2 ** 64 for x in v.f['0'].items)):
+                self.err('MODULUS is not a BigInt of %d literal limbs' % self.N)
+            self.ast[dk] = v
+        return self.ast[dk]
+
+    def eval_path(self, segs):
+        if segs == ['F', 'ZERO']:
+            return Exec.eval_path(self, ['P', 'ZERO'])
+        if len(segs) == 1 and segs[0] in self.d.get('consts', {}) and self.frames[-1].lookup(segs[0]) is None:
+            return self.d['consts'][segs[0]]            # const generic parameter of the target (`M`)
+        return Exec.eval_path(self, segs)
+
+    # ---- local imports
+    def exec_use(self, toks):
+        txt = [t[1] for t in toks]
+        if txt and txt[0] == 'use':
+            txt = txt[1:]
+        ok = (len(txt) in (7, 9) and txt[0] in ('ark_ff', 'crate') and
+              txt[1:6] == ['::', 'biginteger', '::', 'arithmetic', '::'] and txt[6] in LEAF_FN and
+              (len(txt) == 7 or (txt[7] == 'as' and re.match(r'^[A-Za-z_]\w*$', txt[8]))))
+        if not ok:
+            self.err('unsupported local import `use %s;`' % ' '.join(txt))
+        fr = self.frames[-1]
+        if not hasattr(fr, 'aliases'):
+            fr.aliases = {}
+        fr.aliases[txt[-1]] = txt[6]
+
+    def eval_call(self, segs, args):
+        if len(segs) == 1:
+            n = segs[0]
+            al = getattr(self.frames[-1], 'aliases', {})
+            if n in al:
+                c, modes, outs = LEAF_FN[al[n]]
+                return self.leaf_call(c, modes, outs, args)
+            if n in LEAF_FN:
+                self.err('leaf name `%s` used without a local import' % n)
+            if n.startswith('__'):
+                return self.call_fn(('free', n), None, [self.eval(a) for a in args])
+        return Exec.eval_call(self, segs, args)
+
+    # ---- slices, try_into().unwrap(), closures, fold / zip
+    def eval(self, e):
+        if e[0] == 'index' and e[2][0] == 'range':
+            self.tick()
+            base = self.deref(self.eval(e[1]))
+            if not isinstance(base, Arr):
+                self.err('slice of a non-array')
+            lo = self.eval(e[2][1]) if e[2][1] is not None else 0
+            hi = self.eval(e[2][2]) if e[2][2] is not None else len(base.items)
+            if not (isinstance(lo, int) and isinstance(hi, int)):
+                self.err('slice bounds are not concrete')
+            if e[2][3]:
+                hi += 1
+            if not (0 <= lo <= hi <= len(base.items)):
+                self.err('slice %d..%d out of bounds (len %d): the code would panic' % (lo, hi, len(base.items)))
+            return Arr([copyval(x) for x in base.items[lo:hi]])
+        if e[0] == 'closure':
+            return Closure(e[1], e[2])
+        return Exec.eval(self, e)
+
+    def eval_mcall(self, e):
+        _, recv, name, args = e
+        if name == 'try_into' and not args:
+            v = self.deref(self.eval(recv))
+            if isinstance(v, Iter):
+                v = Arr([copyval(self.deref(r)) for r in v.items])
+            if not isinstance(v, Arr):
+                self.err('try_into on something that is not a slice')
+            return Opt(copyval(v))          # slice -> array: Ok iff the lengths agree (checked where it is stored)
+        if name == 'unwrap' and not args:
+            v = self.deref(self.eval(recv))
+            if not isinstance(v, Opt):
+                self.err('unwrap on something that is neither Option nor Result')
+            if v.v is None:
+                self.err('unwrap of None: the code would panic')
+            return v.v
+        if name == 'zip' and len(args) == 1:
+            l = self.deref(self.eval(recv))
+            r = self.eval(args[0])
+            rv = self.deref(r)
+            if isinstance(rv, Arr):             # `&[F; M]` as IntoIterator: references to its elements
+                rv = Iter([Ref(rv, i) for i in range(len(rv.items))])
+            if not (isinstance(l, Iter) and isinstance(rv, Iter)):
+                self.err('zip of something that is not a slice iterator')
+            n = min(len(l.items), len(rv.items))
+            return Iter([Tup([l.items[i], rv.items[i]]) for i in range(n)])
+        if name == 'fold' and len(args) == 2:
+            it = self.deref(self.eval(recv))
+            if isinstance(it, Rng):
+                items = list(range(it.lo, it.hi))
+            elif isinstance(it, Iter):
+                items = it.items
+            else:
+                self.err('fold over something that is neither a range nor a slice iterator')
+            acc = self.value(args[0])
+            f = self.eval(args[1])
+            if not isinstance(f, Closure) or len(f.pats) != 2:
+                self.err('fold: second argument is not a two-parameter closure')
+            for x in items:
+                acc = self.call_closure(f, [acc, x])
+            return acc
+        return Exec.eval_mcall(self, e)
+
+    def call_closure(self, f, vals):
+        """the closure body runs in the defining frame (captures by reference), parameters in a new scope"""
+        fr = self.frames[-1]
+        fr.scopes.append({})
+        try:
+            for p, v in zip(f.pats, vals):
+                self.bind_pattern(p, v)
+            try:
+                r = self.eval(f.body)
+            except ReturnEx as rx:
+                r = rx.v
+            if isinstance(r, Ref):
+                r = copyval(self.deref(r))
+            return r
+        finally:
+            fr.scopes.pop()
+
+    def bind_pattern(self, pat, v):
+        if pat[0] == 'ptuple' and isinstance(v, Tup):
+            # tuple of references (zip of two slice iterators): bind each component as it is
+            if len(v.items) != len(pat[1]):
+                self.err('tuple pattern does not match the value')
+            for p, x in zip(pat[1], v.items):
+                self.bind_pattern(p, x)
+            return
+        Exec.bind_pattern(self, pat, v)
+
+    def exec_for(self, e):
+        _, pat, it, body = e
+        if pat[0] != 'ptuple':
+            return Exec.exec_for(self, e)
+        itv = self.deref(self.eval(it))
+        if not isinstance(itv, Iter):
+            self.err('`for (..) in` over something that is not a zipped slice iterator')
+        for x in itv.items:
+            fr = self.frames[-1]
+            fr.scopes.append({})
+            try:
+                self.bind_pattern(pat, x)
+                try:
+                    self.exec_block(body)
+                except BreakEx:
+                    break
+            finally:
+                fr.scopes.pop()
+        return Unit()
+
+    def binop(self, op, l, r):
+        v = Exec.binop(self, op, l, r)
+        if isinstance(v, int) and not isinstance(v, bool) and not (0 <= v < 2 ** 64):
+            self.err('concrete arithmetic `%s` leaves the u64 range' % op)
+        return v
+
+    def write(self, ref, hint, v):
+        old = ref.get()
+        if isinstance(old, Arr) and not (isinstance(v, Arr) and len(v.items) == len(old.items)):
+            self.err('array assignment with a different length (try_into().unwrap() would panic)')
+        Exec.write(self, ref, hint, v)
+
+
+D_A = ('a', 'Fp', 'a')
+D_B = ('b', 'Fp', 'b')
+
+
+def DT(name, key, params, outs, rty, cfg=(), minN=1):
+    return dict(name=name, key=key, params=params, outs=outs, rty=rty, cfg=list(cfg), opaque=OPQ, minN=minN)
+
+
+DERIVE_TARGETS = [
+    DT('add_with_carry', ('free', '__add_with_carry'), [('a', 'BigInt', 'a'), ('b', 'BigInt', 'b')], ['a', 'ret'],
+       'list Z * bool'),
+    DT('sub_with_borrow', ('free', '__sub_with_borrow'), [('a', 'BigInt', 'a'), ('b', 'BigInt', 'b')], ['a', 'ret'],
+       'list Z * bool'),
+    DT('subtract_modulus', ('free', '__subtract_modulus'), [D_A], ['a'], 'list Z'),
+    DT('subtract_modulus_with_carry', ('free', '__subtract_modulus_with_carry'), [D_A, ('carry', 'bool', 'carry')],
+       ['a'], 'list Z'),
+    DT('add_assign', ('Mont', 'add_assign'), [D_A, D_B], ['a'], 'list Z'),
+    DT('sub_assign', ('Mont', 'sub_assign'), [D_A, D_B], ['a'], 'list Z'),
+    DT('double_in_place', ('Mont', 'double_in_place'), [D_A], ['a'], 'list Z'),
+    DT('neg_in_place', ('Mont', 'neg_in_place'), [D_A], ['a'], 'list Z'),
+    DT('mul_assign', ('Mont', 'mul_assign'), [D_A, D_B], ['a'], 'list Z', cfg=['INV']),
+    DT('square_in_place', ('Mont', 'square_in_place'), [D_A], ['a'], 'list Z', cfg=['INV']),
+]
+
+# struct name in lib/expand_crate/src/lib.rs -> prefix of the Gallina names (coq/GenLimb/GenDeriveSpecs.v is
+# written against these)
+DERIVE_FIELDS = [('R62', 'r62'), ('P64', 'p64'), ('R125', 'r125'), ('M127', 'm127'), ('P128', 'p128'),
+                 ('Bn254Fr', 'bn254fr'), ('P25519', 'p25519'), ('Secp256k1P', 'secp256k1p'), ('Bls381Fq', 'bls381fq')]
+
+
+def derive_fields(expanded):
+    """split the expanded text: struct name -> dict(name, N, block, impl_re, modulus_attr)"""
+    src = strip_comments(expanded)
+    out = {}
+    for m in re.finditer(r'\bconst\s+_\s*:\s*\(\s*\)\s*=\s*\{', src):
+        i = m.end() - 1
+        j = match_brace(src, i)
+        body = src[i + 1:j]
+        mi = re.search(r'\bimpl\s+MontConfig\s*<\s*(\d+)\s*usize\s*>\s*for\s+(\w+)\s*\{', body)
+        if not mi:
+            continue
+        N, name = int(mi.group(1)), mi.group(2)
+        d = dict(name=name, N=N, block='mod %s {%s}' % (DERIVE_MOD, body),
+                 impl_re=r'\bimpl\s+MontConfig\s*<\s*%d\s*usize\s*>\s*for\s+%s\s*\{' % (N, re.escape(name)))
+        ma = re.search(r'#\[modulus\s*=\s*"(\d+)"\]\s*(?:#\[[^\]]*\]\s*)*pub\s+struct\s+%s\s*;' % re.escape(name), src)
+        d['modulus_attr'] = int(ma.group(1)) if ma else None
+        d['header_error'] = derive_check_header(body, name, N)
+        if name in out:
+            out[name]['header_error'] = 'two expansions for the struct %s' % name
+        else:
+            out[name] = d
+    return out
+
+
+def derive_check_header(body, name, N):
+    """the aliases the generated code relies on: `fa`, `B`, `F` (None = as expected)"""
+    head = body[:body.find('impl')]
+    head = re.sub(r'#\s*\[[^\]]*\]', ' ', head)
+    got = ' '.join(t[1] for t in tokenize(head)).replace(', }', '}').replace(' }', '}')     # pretty-printer's trailing comma
+    want = '%s type B = BigInt < %dusize > ; type F = Fp < MontBackend < %s , %dusize > , %dusize > ;' % (
+        DERIVE_USE_EXPECT, N, name, N, N)
+    if got != want:
+        return 'header of the generated block changed: `%s`' % got
+    return None
+
+
+class DTranslator(Translator):
+    def __init__(self, repo, fields):
+        Translator.__init__(self, repo)
+        self.fields = fields
+
+    def def_name(self, tgt, N):
+        return 'gen_%s_%s' % (tgt['prefix'], tgt['name'])
+
+    def new_exec(self, tgt, N, cfg, what):
+        d = self.fields[tgt['field']]
+        if tgt.get('consts'):
+            d = dict(d, consts=tgt['consts'])
+        return DExec(self.repo, N, cfg, what, self.src, self.ast, d)
+
+    def origin(self, tgt):
+        return '#[derive(MontConfig)] expansion for %s (ff-macros/src/montgomery)' % tgt['field']
+
+    def modulus_def(self, field, prefix):
+        d = self.fields[field]
+        ex = DExec(self.repo, d['N'], {}, 'gen_%s_modulus' % prefix, self.src, self.ast, d)
+        v = ex.modulus()
+        limbs = v.f['0'].items
+        txt = '(* %s: limbs of `const MODULUS`' % field
+        if d['modulus_attr'] is not None:
+            txt += '; the attribute value #[modulus = ".."]'
+        txt += ' *)\nDefinition gen_%s_modulus : list Z := [%s].\n' % (prefix, '; '.join(str(x) for x in limbs))
+        if d['modulus_attr'] is not None:
+            txt += 'Definition gen_%s_modulus_attr : Z := %d.\n' % (prefix, d['modulus_attr'])
+        return txt
+
+
+DERIVE_HEADER = """(* GENERATED by lib/xlate_limb.py (translate_derive) -- do not edit.
+   The code that #[derive(MontConfig)] (ff-macros/src/montgomery/*.rs) generates for the fields of
+   lib/expand_crate/src/lib.rs, taken from `cargo rustc -- -Zunpretty=expanded` (lib/expand_derive.py) and
+   symbolically executed; one Gallina definition per (field, function).  Modulus limbs are the literals of the
+   expansion, `inv` is Self::INV.  Leaf calls are the functions of C15.GenArith; gen_cmp_N / gen_is_zero_N are
+   the translated BigInt functions of GenLimb/GenLimb.v.  Lemmas: GenLimb/GenDeriveSpecs.v. *)
+From V Require Import Base.Word C15.GenArith GenLimb.GenLimb.
+"""
+
+
+def translate_derive(repo, expanded, prev_text=None, extra=None):
+    """returns (text, failures) like translate(); `expanded` is the output of lib/expand_derive.py.
+    `extra(tr, fields, emit)` may append further blocks (sum_of_products, shifts)."""
+    fields = derive_fields(expanded)
+    tr = DTranslator(repo, fields)
+    prev = dict(BLOCK.findall(prev_text)) if prev_text else {}
+    out, failures = [DERIVE_HEADER], []
+
+    def emit(name, thunk):
+        try:
+            body = thunk()
+        except TranslateError as e:
+            body = prev.get(name)
+            failures.append((name, str(e), body is not None))
+            if body is None:
+                return
+        except RecursionError:
+            body = prev.get(name)
+            failures.append((name, 'recursion limit', body is not None))
+            if body is None:
+                return
+        out.append('(* BEGIN %s *)\n%s(* END %s *)\n' % (name, body, name))
+
+    def need(field):
+        if field not in fields:
+            raise TranslateError('no expansion of `impl MontConfig for %s` found' % field)
+        if fields[field]['header_error']:
+            raise TranslateError(fields[field]['header_error'])
+        return fields[field]
+
+    for field, prefix in DERIVE_FIELDS:
+        emit('gen_%s_modulus' % prefix, lambda: (need(field), tr.modulus_def(field, prefix))[1])
+        for t in DERIVE_TARGETS:
+            tgt = dict(t, field=field, prefix=prefix)
+            emit('gen_%s_%s' % (prefix, t['name']),
+                 lambda: tr.translate_one(tgt, need(field)['N']))
+    if extra is not None:
+        extra(tr, fields, emit, need)
+    return '\n'.join(out), failures
+
+
+# sum_of_products::<M> for concrete M: only the interleaved branch (`M <= chunk_size`; fields with >= 2 spare bits);
+# the text of the other branch (chunks / map / sum) is parsed but never executed for these M
+DERIVE_SOP = [('R62', 'r62', (1, 2, 3)), ('R125', 'r125', (1, 2)), ('Bn254Fr', 'bn254fr', (1, 2, 3)),
+              ('Bls381Fq', 'bls381fq', (1, 2))]
+
+
+def derive_extra(tr, fields, emit, need):
+    """further blocks of GenDerive.v (sum_of_products, BigInt shifts)"""
+    for field, prefix, Ms in DERIVE_SOP:
+        for M in Ms:
+            tgt = DT('sum_of_products_%d' % M, ('Mont', 'sum_of_products'),
+                     [('a', ('FpArr', M), 'a'), ('b', ('FpArr', M), 'b')], ['ret'], 'list Z', cfg=['INV'])
+            tgt.update(field=field, prefix=prefix, consts={'M': M})
+            emit('gen_%s_%s' % (prefix, tgt['name']), lambda tgt=tgt: tr.translate_one(tgt, need(field)['N']))
+
+
+def translate_derive_all(repo, expanded, prev_text=None):
+    return translate_derive(repo, expanded, prev_text, extra=derive_extra)
+
+
+def main_derive(argv):
+    """python3 lib/xlate_limb.py --derive [repo [dst]]: expand (cached) + translate the derive-generated code"""
+    import expand_derive
+    repo = argv[0] if argv else '/repo'
+    dst = argv[1] if len(argv) > 1 else '/verif/coq/GenLimb/GenDerive.v'
+    try:
+        expanded = expand_derive.expand(repo)
+    except expand_derive.ExpandError as e:
+        print('EXPAND-ERROR: %s' % e)
+        return 4
+    prev = open(dst).read() if os.path.exists(dst) else None
+    text, failures = translate_derive_all(repo, expanded, prev)
+    for name, msg, kept in failures:
+        print('TRANSLATE-ERROR: %s: %s (%s)' % (name, msg, 'kept previous text' if kept else 'omitted'))
+    print('changed' if write_if_changed(dst, text) else 'unchanged')
+    return 3 if failures else 0
+
+
 if __name__ == '__main__':
+    if len(sys.argv) > 1 and sys.argv[1] == '--derive':
+        sys.exit(main_derive(sys.argv[2:]))
     repo = sys.argv[1] if len(sys.argv) > 1 else '/repo'
     dst = sys.argv[2] if len(sys.argv) > 2 else '/verif/coq/GenLimb/GenLimb.v'
     prev = open(dst).read() if os.path.exists(dst) else None
